@@ -18,8 +18,8 @@ theorem rowsOfPages_wf (maxDef : Nat) : ∀ (ps : List (Option (Page α))),
     obtain ⟨q, rfl, hq⟩ := hps p (by simp)
     simp only [rowsOfPages, List.mem_append] at hrow
     rcases hrow with hrow | hrow
-    · exact pageRows_wf _ _ _ _ (by rw [hq.2.1]; exact Nat.le_refl _) (by rw [hq.2.2.1]; exact Nat.le_refl _)
-        hq.2.2.2 row hrow
+    · exact pageRows_wf _ _ _ _ (by rw [hq.1]; exact Nat.le_refl _) (by rw [hq.2.1]; exact Nat.le_refl _)
+        hq.2.2 row hrow
     · exact ih (fun x hx => hps x (by simp [hx])) row hrow
 
 /-- A projection the batch reader can serve: at least one column, all indices in range. -/
